@@ -1,9 +1,8 @@
-// C03 — in-crate Kani harnesses for yash-arith/src/ast.rs: operator tables against the
-// ISO C 6.5 table, the REAL parser on symbolic token sequences (the text tokenizer
-// Tokens::next_token is stubbed by a token queue), and evaluation of what it produces.
+// C03 — in-crate Kani harness for yash-arith/src/ast.rs: the operator tables against the
+// ISO C 6.5 table.
 
 use super::*;
-use crate::token::{Operator, PeekableTokens, Term, Token, TokenValue, Tokens, Value};
+use crate::token::Operator;
 
 const OPS: [Operator; 37] = [
     Operator::Question, Operator::Colon, Operator::Bar, Operator::BarBar, Operator::BarEqual,
@@ -110,221 +109,9 @@ fn c03_operator_tables() {
     kani::cover!(c_binary(a).is_some() && c_binary(b).is_some() && a.precedence() == b.precedence() && a != b, "two operators of one level");
 }
 
-// ---------------------------------------------------------------------------
-// The real parser on symbolic token sequences. Tokens::next_token (text level) is
-// replaced by a queue of tokens; PeekableTokens, parse_tree, parse_leaf, parse_postfix,
-// parse_binary_rhs, parse_close_paren, parse_end_of_input are the real code.
-// ---------------------------------------------------------------------------
-static mut QUEUE: [Option<TokenValue<'static>>; 8] = [None, None, None, None, None, None, None, None];
-static mut POS: usize = 0;
-
-fn queue_next_token<'a>(_t: &mut Tokens<'a>) -> Result<Token<'a>, crate::token::Error>
-where
-    'a: 'a,
-{
-    unsafe {
-        let i = POS;
-        POS += 1;
-        let value = if i < 8 {
-            match &*std::ptr::addr_of!(QUEUE[i]) {
-                Some(v) => v.clone(),
-                None => TokenValue::EndOfInput,
-            }
-        } else {
-            TokenValue::EndOfInput
-        };
-        Ok(Token { value, location: i..i + 1 })
-    }
-}
-
-fn set_queue(toks: &[TokenValue<'static>]) {
-    // written without a loop: the unwinding bound of the harnesses is the recursion bound of
-    // the parser, and must stay small
-    unsafe {
-        if toks.len() > 0 { *std::ptr::addr_of_mut!(QUEUE[0]) = Some(toks[0].clone()); }
-        if toks.len() > 1 { *std::ptr::addr_of_mut!(QUEUE[1]) = Some(toks[1].clone()); }
-        if toks.len() > 2 { *std::ptr::addr_of_mut!(QUEUE[2]) = Some(toks[2].clone()); }
-        if toks.len() > 3 { *std::ptr::addr_of_mut!(QUEUE[3]) = Some(toks[3].clone()); }
-        if toks.len() > 4 { *std::ptr::addr_of_mut!(QUEUE[4]) = Some(toks[4].clone()); }
-        if toks.len() > 5 { *std::ptr::addr_of_mut!(QUEUE[5]) = Some(toks[5].clone()); }
-        if toks.len() > 6 { *std::ptr::addr_of_mut!(QUEUE[6]) = Some(toks[6].clone()); }
-        if toks.len() > 7 { *std::ptr::addr_of_mut!(QUEUE[7]) = Some(toks[7].clone()); }
-        POS = 0;
-    }
-}
-
-fn val(i: i64) -> TokenValue<'static> {
-    TokenValue::Term(Term::Value(Value::Integer(i)))
-}
-
-fn is_val(a: &Ast, v: i64) -> bool {
-    matches!(a, Ast::Term(Term::Value(Value::Integer(x))) if *x == v)
-}
-
-fn is_bin(a: &Ast, op: BinaryOperator, len: usize) -> bool {
-    matches!(a, Ast::Binary { operator, rhs_len, .. } if *operator == op && *rhs_len == len)
-}
-
-/// "1 op1 2 op2 3" for every pair of binary operator tokens: the tree is the one the C
-/// table prescribes.  Bound: 29 x 29 operator pairs, operands are constants.
-#[kani::proof]
-#[kani::unwind(5)]
-#[kani::stub(crate::token::Tokens::next_token, queue_next_token)]
-fn c03_parse_shape_binary() {
-    let o1 = any_op();
-    let o2 = any_op();
-    let (l1, r1, b1) = match c_binary(o1) {
-        Some(x) => x,
-        None => return,
-    };
-    let (l2, _r2, b2) = match c_binary(o2) {
-        Some(x) => x,
-        None => return,
-    };
-    set_queue(&[val(1), TokenValue::Operator(o1), val(2), TokenValue::Operator(o2), val(3)]);
-    let ast = parse(PeekableTokens::new(Tokens::new(""))).expect("C03 well-formed expression parses");
-    assert!(ast.len() == 5, "C03 five nodes");
-    // (1 o1 2) o2 3  iff o1 binds tighter, or the same level and left-associative
-    let left_group = l1 > l2 || (l1 == l2 && !r1);
-    if left_group {
-        assert!(is_val(&ast[0], 1) && is_val(&ast[1], 2) && is_bin(&ast[2], b1, 1) && is_val(&ast[3], 3) && is_bin(&ast[4], b2, 1),
-            "C03 grouping (1 a 2) b 3");
-    } else {
-        assert!(is_val(&ast[0], 1) && is_val(&ast[1], 2) && is_val(&ast[2], 3) && is_bin(&ast[3], b2, 1) && is_bin(&ast[4], b1, 3),
-            "C03 grouping 1 a (2 b 3)");
-    }
-    kani::cover!(left_group && l1 == l2, "left-associative pair");
-    kani::cover!(!left_group && l1 == l2, "right-associative pair");
-    std::mem::forget(ast);
-}
-
-/// "1 op 2 ? 3 : 4 op' 5" — the conditional operator against each binary operator, and
-/// nesting of two conditionals (right-associative).
-#[kani::proof]
-#[kani::unwind(6)]
-#[kani::stub(crate::token::Tokens::next_token, queue_next_token)]
-fn c03_parse_shape_conditional() {
-    let o = any_op();
-    let (l, _r, b) = match c_binary(o) {
-        Some(x) => x,
-        None => return,
-    };
-    let which: bool = kani::any();
-    if which {
-        // 1 o 2 ? 3 : 4    =>  (1 o 2) ? 3 : 4  if o binds tighter than ?: (all but assignment),
-        //                      1 o (2 ? 3 : 4)  for assignments
-        set_queue(&[val(1), TokenValue::Operator(o), val(2), TokenValue::Operator(Operator::Question), val(3),
-                    TokenValue::Operator(Operator::Colon), val(4)]);
-        let ast = parse(PeekableTokens::new(Tokens::new(""))).expect("C03 well-formed expression parses");
-        assert!(ast.len() == 6, "C03 six nodes");
-        if l >= 3 {
-            assert!(is_val(&ast[0], 1) && is_val(&ast[1], 2) && is_bin(&ast[2], b, 1) && is_val(&ast[3], 3) && is_val(&ast[4], 4)
-                && matches!(&ast[5], Ast::Conditional { then_len: 1, else_len: 1 }), "C03 (1 a 2) ? 3 : 4");
-        } else {
-            assert!(is_val(&ast[0], 1) && is_val(&ast[1], 2) && is_val(&ast[2], 3) && is_val(&ast[3], 4)
-                && matches!(&ast[4], Ast::Conditional { then_len: 1, else_len: 1 }) && is_bin(&ast[5], b, 4), "C03 1 = (2 ? 3 : 4)");
-        }
-        std::mem::forget(ast);
-    } else {
-        // 1 ? 2 : 3 o 4   =>  1 ? 2 : (3 o 4)  for every binary operator (assignment included)
-        set_queue(&[val(1), TokenValue::Operator(Operator::Question), val(2), TokenValue::Operator(Operator::Colon), val(3),
-                    TokenValue::Operator(o), val(4)]);
-        let ast = parse(PeekableTokens::new(Tokens::new(""))).expect("C03 well-formed expression parses");
-        assert!(ast.len() == 6, "C03 six nodes");
-        if l >= 3 {
-            assert!(is_val(&ast[0], 1) && is_val(&ast[1], 2) && is_val(&ast[2], 3) && is_val(&ast[3], 4) && is_bin(&ast[4], b, 1)
-                && matches!(&ast[5], Ast::Conditional { then_len: 1, else_len: 3 }), "C03 1 ? 2 : (3 a 4)");
-        }
-        std::mem::forget(ast);
-    }
-    kani::cover!(which && l < 3, "assignment before ?:");
-}
-
-/// 1 ? 2 : 3 ? 4 : 5  is  1 ? 2 : (3 ? 4 : 5); prefix and postfix operators bind tighter
-/// than any binary operator.
-#[kani::proof]
-#[kani::unwind(5)]
-#[kani::stub(crate::token::Tokens::next_token, queue_next_token)]
-fn c03_parse_shape_unary() {
-    let o = any_op();
-    let (_l, _r, b) = match c_binary(o) {
-        Some(x) => x,
-        None => return,
-    };
-    let p = any_op();
-    let pre = match p.as_prefix() {
-        Some(x) => x,
-        None => return,
-    };
-    // p 1 o 2   =>  (p 1) o 2
-    set_queue(&[TokenValue::Operator(p), val(1), TokenValue::Operator(o), val(2)]);
-    let ast = parse(PeekableTokens::new(Tokens::new(""))).expect("C03 well-formed expression parses");
-    assert!(ast.len() == 4, "C03 four nodes");
-    assert!(is_val(&ast[0], 1) && matches!(&ast[1], Ast::Prefix { operator, .. } if *operator == pre) && is_val(&ast[2], 2) && is_bin(&ast[3], b, 1),
-        "C03 prefix operator binds tighter than a binary operator");
-    std::mem::forget(ast);
-}
-
-struct NoEnv;
-impl crate::env::Env for NoEnv {
-    type GetVariableError = ();
-    type AssignVariableError = ();
-    fn get_variable(&self, _name: &str) -> Result<Option<&str>, ()> {
-        Ok(None)
-    }
-    fn assign_variable(&mut self, _name: &str, _value: String, _location: Range<usize>) -> Result<(), ()> {
-        Ok(())
-    }
-}
-
-fn any_token() -> TokenValue<'static> {
-    let k: u8 = kani::any();
-    kani::assume(k < 3);
-    match k {
-        0 => {
-            let v: i64 = kani::any();
-            val(v)
-        }
-        1 => TokenValue::Term(Term::Variable { name: "x", location: 0..1 }),
-        _ => TokenValue::Operator(any_op()),
-    }
-}
-
-fn check_total<const N: usize>() {
-    let mut toks: [TokenValue<'static>; N] = [const { TokenValue::EndOfInput }; N];
-    if N > 0 { toks[0] = any_token(); }
-    if N > 1 { toks[1] = any_token(); }
-    if N > 2 { toks[2] = any_token(); }
-    if N > 3 { toks[3] = any_token(); }
-    set_queue(&toks);
-    // totality: the parser returns a tree or a syntax error - never a panic ...
-    let r = parse(PeekableTokens::new(Tokens::new("")));
-    if let Ok(ast) = r {
-        assert!(!ast.is_empty(), "C03 a parsed expression is not empty");
-        // ... and whatever it returns can be evaluated without a panic
-        let mut env = NoEnv;
-        let v = crate::eval::eval(&ast, &mut env);
-        kani::cover!(v.is_ok() && N >= 3, "evaluable expression");
-        kani::cover!(v.is_err() && N >= 3, "evaluation error");
-        std::mem::forget(v);
-        std::mem::forget(ast);
-    } else {
-        kani::cover!(N >= 2, "syntax error");
-        std::mem::forget(r);
-    }
-}
-
-macro_rules! total_harness {
-    ($name:ident, $n:literal, $u:literal) => {
-        #[kani::proof]
-        #[kani::unwind($u)]
-        #[kani::stub(crate::token::Tokens::next_token, queue_next_token)]
-        fn $name() {
-            check_total::<$n>();
-        }
-    };
-}
-total_harness!(c03_parse_total_1, 1, 4);
-total_harness!(c03_parse_total_2, 2, 5);
-total_harness!(c03_parse_total_3, 3, 6);
-total_harness!(c03_parse_total_4, 4, 7);
+// NOTE (measured, see DESIGN.md section 0): harnesses that drove the REAL parser (parse_tree /
+// parse_leaf / parse_binary_rhs) with a stubbed token queue and symbolic operator tokens were
+// written and abandoned: CBMC merges the branches of the recursive descent, the number of
+// consumed tokens becomes symbolic, and every recursion is unwound to the bound in every
+// branch (15 min of symbolic execution at 4-7 GB without reaching the solver, even for a
+// single token). The parser's use of the tables is therefore outside the claim.
